@@ -25,7 +25,10 @@ fn main() {
         eprintln!("usage: avharness gen <kind> <seed> <first-case> <n-cases>");
         std::process::exit(2);
     }
-    std::panic::set_hook(Box::new(|_| {}));
+    // panics of the crate are data here (caught per call); AVH_PANIC=1 prints them to stderr for diagnosis
+    if std::env::var_os("AVH_PANIC").is_none() {
+        std::panic::set_hook(Box::new(|_| {}));
+    }
     let kind = args[2].as_str();
     let seed: u64 = args[3].parse().unwrap();
     let first: u64 = args[4].parse().unwrap();
